@@ -279,12 +279,24 @@ func TestVerifC30(t *testing.T) {
 	// the coordinator and are routed per shard; id imports of the source go to the shard's owner
 	var nodes []*test.Command
 	if n, _ := strconv.Atoi(os.Getenv("VERIF_ESRV_NODES")); n > 1 {
-		cl := test.MustRunCluster(t, n)
+		cl := test.MustNewCluster(t, n)
+		for _, m := range cl {
+			m.Config.Translation.MapSize = 1 << 28 // see below
+		}
+		if err := cl.Start(); err != nil {
+			t.Fatalf("starting cluster: %v", err)
+		}
 		defer cl.Close()
 		nodes = cl
 	} else {
 		one := test.MustRunCommand()
 		defer one.Close()
+		// the test helper maps only 140000 bytes of the key translation log, which a thorough run outgrows (the log is
+		// not bounds-checked against its map): restart once with the map size changed
+		one.Config.Translation.MapSize = 1 << 28
+		if err := one.Reopen(); err != nil {
+			t.Fatalf("reopen with a larger translation map: %v", err)
+		}
 		nodes = []*test.Command{one}
 	}
 	m := nodes[0]
